@@ -247,25 +247,34 @@ thread_local! {
 static HOOK: Once = Once::new();
 pub static PANICS: AtomicU64 = AtomicU64::new(0);
 
+fn hook_fn(info: &panic::PanicHookInfo<'_>) {
+    PANICS.fetch_add(1, Ordering::SeqCst);
+    let loc = info.location().map(|l| format!("{}:{}", l.file(), l.line())).unwrap_or_default();
+    let msg = if let Some(s) = info.payload().downcast_ref::<&str>() {
+        s.to_string()
+    } else if let Some(s) = info.payload().downcast_ref::<String>() {
+        s.clone()
+    } else {
+        "panic".to_string()
+    };
+    let text = format!("{} @ {}", msg, loc);
+    if !QUIET.with(|q| q.get()) {
+        eprintln!("panic: {}", text);
+    }
+    LAST_PANIC.with(|p| *p.borrow_mut() = Some(text));
+}
+
 pub fn install_panic_hook() {
     HOOK.call_once(|| {
-        let prev = panic::take_hook();
-        panic::set_hook(Box::new(move |info| {
-            PANICS.fetch_add(1, Ordering::SeqCst);
-            let loc = info.location().map(|l| format!("{}:{}", l.file(), l.line())).unwrap_or_default();
-            let msg = if let Some(s) = info.payload().downcast_ref::<&str>() {
-                s.to_string()
-            } else if let Some(s) = info.payload().downcast_ref::<String>() {
-                s.clone()
-            } else {
-                "panic".to_string()
-            };
-            let text = format!("{} @ {}", msg, loc);
-            LAST_PANIC.with(|p| *p.borrow_mut() = Some(text));
-            if !QUIET.with(|q| q.get()) {
-                prev(info);
-            }
-        }));
+        panic::set_hook(Box::new(hook_fn));
+    });
+}
+
+/// Puts the harness hook back on top (shuttle wraps the current hook on its first execution).
+pub fn reinstall_panic_hook() {
+    static AGAIN: Once = Once::new();
+    AGAIN.call_once(|| {
+        panic::set_hook(Box::new(hook_fn));
     });
 }
 
